@@ -26,6 +26,8 @@ Definition chk (r : res zparr) (e : expect) : bool :=
 Definition chk_wf (r : res zparr) (e : expect) : bool :=
   chk r e && (if r is Ok p then wfb p else true).
 
+Definition zpow_arr o (x : zparr) (se es : seq nat) : res zparr := @ppow_arr ZR o x se es.
+
 Definition show (r : res zparr) : option (obs ZR) + err :=
   match r with Ok p => inl (Some (observe p)) | Err e => inr e end.
 
